@@ -143,6 +143,12 @@ def long_values(version):
         add('a^n ending in a backslash', 'a' * (n - 1) + '\\')
         add(';a^n ending in a backslash and blanks', ';' + 'a' * (n - 4) + '\\  ')
         add('a^4090, a^n ending in a backslash', 'a' * 4090 + '\n' + 'a' * (n - 1) + '\\\nz')
+    # folded fields in which another line ends in a backslash followed by a character that has a lexical role elsewhere
+    # (keyword letters, quotes, underscore, semicolon, brackets, hash, dollar): that backslash is content, not a fold
+    for tail in ('b', 'D', 'e', 'g', 'L', 'o', 'p', 's', 'T', 'v', 'a', "'", '"', '_', ';', '#', '$', '[', ']', 'x', '1', ' b', 'b '):
+        add('long line, then a line ending in backslash+%r' % tail, 'a' * 2100 + '\nq\\' + tail + '\nr')
+        add('first line ends in a backslash, later line ends in backslash+%r' % tail, 'k\\\nq\\' + tail + '\nr\\' + tail)
+        add('line ending in backslash+%r, then a line starting with a semicolon, then a long line' % tail, 'q\\' + tail + '\n;s\n' + 'a' * 2100)
     # prefixed but not (necessarily) folded: every line of the field carries the prefix, so the limit applies to prefix + line
     for n in range(2036, 2054):
         add('a^n, nl, ;x', 'a' * n + '\n;x')
@@ -238,6 +244,14 @@ def structures(version):
     L.append('loop.additem L0 %s %s' % (U('_added'), lit(V['c'])))
     L += ['loop.create H0 - 1 %s L1' % U('_single'), 'pkt.create P1 0', 'pkt.set P1 %s %s' % (U('_single'), lit(V['n'])), 'loop.addpkt L1 P1', 'loop.addpkt L1 P1']
     S.append(('loops via add_packet / add_item', L, False))
+    # block code, frame code, scalar name and looped name carrying each name character (delimiters that are ordinary inside a
+    # name, range boundaries, characters that grow under normalisation) at the start, in the middle, at the end, and doubled
+    from c01 import NAME_CHARS1, NAME_CHARS2
+    for c in (NAME_CHARS1 if version == 1 else NAME_CHARS2):
+        for x in (c + 'x', 'x' + c + 'y', 'x' + c, c + c):
+            S.append(('name character %s' % ascii(x), ['cif.new C0', 'blk.create C0 %s H0' % U(x), 'frm.create H0 %s H1' % U(x), 'item.set H0 %s %s' % (U('_' + x), lit(V['b'])),
+                                                       'item.set H1 %s %s' % (U('_' + x), lit(V['n'])), 'loop.create H0 - 2 %s %s L0' % (U('_' + x + 'l'), U('_q')),
+                                                       'pkt.create P0 0', 'pkt.set P0 %s %s' % (U('_' + x + 'l'), lit(V['c'])), 'pkt.set P0 %s %s' % (U('_q'), lit(V['b'])), 'loop.addpkt L0 P0'], False))
     # route 3: iterator updates and removals
     L = ['cif.new C0', 'blk.create C0 %s H0' % U('b'), 'loop.create H0 - 2 %s %s L0' % (U('_p'), U('_q'))]
     for k in keys:
